@@ -242,7 +242,7 @@ func (c *checkCtx) codecTask(names []string, runs []string) {
 				continue
 			}
 			c.funcs[tg.Inst] = true
-			obs := c.V.VerifyFunction(tg, only)
+			obs := c.guard(tg.Inst, "verify", func() []*Obligation { return c.V.VerifyFunction(tg, only) })
 			if len(fc.Holes) > 0 && formatRelative {
 				// pinned versus extracted format (DESIGN 4.5): if the pinned byte order does not verify, look for the
 				// order the code actually uses; format-relative properties are then proved against that one, and
@@ -375,39 +375,55 @@ func (c *checkCtx) msgTask(runs ...string) {
 		c.funcs[mt.Name+".Encode"] = true
 		c.funcs[mt.Name+".Decode"] = true
 		if want["ok"] {
-			c.obs = append(c.obs, c.enc(mt).Obs...)
+			c.obs = append(c.obs, c.guard(mt.Name, "EncodeOK", func() []*Obligation { return c.enc(mt).Obs })...)
 		}
 		if want["safe"] {
-			c.obs = append(c.obs, c.V.EncodeSafe(mt, p)...)
+			c.obs = append(c.obs, c.guard(mt.Name, "EncodeSafe", func() []*Obligation { return c.V.EncodeSafe(mt, p) })...)
 		}
 		if want["toolong"] {
-			c.obs = append(c.obs, c.V.EncodeTooLong(mt, p)...)
+			c.obs = append(c.obs, c.guard(mt.Name, "EncodeTooLong", func() []*Obligation { return c.V.EncodeTooLong(mt, p) })...)
 		}
 		if want["rt"] {
-			c.obs = append(c.obs, c.V.DecodeRT(mt, c.enc(mt), p)...)
+			c.obs = append(c.obs, c.guard(mt.Name, "DecodeRT", func() []*Obligation { return c.V.DecodeRT(mt, c.enc(mt), p) })...)
 		}
 		if want["decsafe"] {
-			c.obs = append(c.obs, c.V.DecodeSafe(mt, p)...)
+			c.obs = append(c.obs, c.guard(mt.Name, "DecodeSafe", func() []*Obligation { return c.V.DecodeSafe(mt, p) })...)
 		}
 		if want["re"] {
-			c.obs = append(c.obs, c.V.DecodeRE(mt, p)...)
+			c.obs = append(c.obs, c.guard(mt.Name, "DecodeRE", func() []*Obligation { return c.V.DecodeRE(mt, p) })...)
 		}
 		if want["repeat"] {
-			c.obs = append(c.obs, c.V.EncodeRepeat(mt, c.enc(mt), p)...)
+			c.obs = append(c.obs, c.guard(mt.Name, "EncodeRepeat", func() []*Obligation { return c.V.EncodeRepeat(mt, c.enc(mt), p) })...)
 		}
 		if want["layout"] {
-			c.obs = append(c.obs, c.V.CheckLayout(mt, c.enc(mt), p)...)
+			c.obs = append(c.obs, c.guard(mt.Name, "CheckLayout", func() []*Obligation { return c.V.CheckLayout(mt, c.enc(mt), p) })...)
 		}
 		if want["orders"] {
-			c.obs = append(c.obs, c.V.CheckOrders(mt, c.enc(mt), p)...)
+			c.obs = append(c.obs, c.guard(mt.Name, "CheckOrders", func() []*Obligation { return c.V.CheckOrders(mt, c.enc(mt), p) })...)
 		}
 		if want["frameC04"] {
-			c.obs = append(c.obs, c.V.CheckFrame(mt, c.enc(mt), "C04", p)...)
+			c.obs = append(c.obs, c.guard(mt.Name, "CheckFrame", func() []*Obligation { return c.V.CheckFrame(mt, c.enc(mt), "C04", p) })...)
 		}
 		if want["frameC05"] {
-			c.obs = append(c.obs, c.V.CheckFrame(mt, c.enc(mt), "C05", p)...)
+			c.obs = append(c.obs, c.guard(mt.Name, "CheckFrame", func() []*Obligation { return c.V.CheckFrame(mt, c.enc(mt), "C05", p) })...)
 		}
 	}
+}
+
+// guard turns a crash of the verifier on one function into a failed obligation for that function (fail closed):
+// code the engine cannot process is not verified, and the check must say so rather than die.
+func (c *checkCtx) guard(fn, what string, f func() []*Obligation) (obs []*Obligation) {
+	defer func() {
+		if r := recover(); r != nil {
+			msg := fmt.Sprint(r)
+			if len(msg) > 200 {
+				msg = msg[:200]
+			}
+			obs = append(obs, &Obligation{Name: fn + "/" + what + "/engine-limit", Func: fn, Kind: "subset", Props: []string{c.prop}, Goal: False,
+				Detail: "the verifier could not process this function (treated as outside the verified subset): " + msg})
+		}
+	}()
+	return f()
 }
 
 func (c *checkCtx) tablesTask() {
@@ -913,25 +929,32 @@ func writeLoadFailure(vdir, prop, tier string, err error) int {
 
 var propExplanation = map[string]string{}
 
-// leanCoverage reports which named axioms of the prelude are proved in prelude/Prelude.lean
-// (checked by setup.sh and in the thorough tier) and which remain trusted.
+// leanCoverage reports which named axioms of the prelude are proved in prelude/Prelude.lean (sequence
+// fragment, core Lean) or prelude/Model.lean (scalar encoders, element kinds, boxing, CRC recursions:
+// one concrete model) — both checked by setup.sh and in the thorough tier — and which remain trusted.
 func leanCoverage(vdir string) string {
 	pb, err1 := os.ReadFile(filepath.Join(vdir, "prelude", "prelude.smt2"))
 	lb, err2 := os.ReadFile(filepath.Join(vdir, "prelude", "Prelude.lean"))
+	mb, _ := os.ReadFile(filepath.Join(vdir, "prelude", "Model.lean"))
 	if err1 != nil || err2 != nil {
 		return "prelude axioms: none machine-checked (Prelude.lean missing)"
 	}
+	all := string(lb) + "\n" + string(mb)
 	var unchecked []string
 	n, k := 0, 0
 	for _, f := range strings.Split(string(pb), ":named ")[1:] {
 		name := strings.TrimRight(strings.Fields(f)[0], ")")
 		n++
-		if strings.Contains(string(lb), "theorem "+name+" ") || strings.Contains(string(lb), "theorem "+name+"\n") {
+		if strings.Contains(all, "theorem "+name+" ") || strings.Contains(all, "theorem "+name+"\n") {
 			k++
 		} else {
 			unchecked = append(unchecked, name)
 		}
 	}
 	sort.Strings(unchecked)
-	return fmt.Sprintf("prelude: %d of %d named axioms are theorems of prelude/Prelude.lean (List Int, Lean 4 core); trusted as stated: %s", k, n, strings.Join(unchecked, ", "))
+	rest := "none"
+	if len(unchecked) > 0 {
+		rest = strings.Join(unchecked, ", ")
+	}
+	return fmt.Sprintf("prelude: %d of %d named axioms are Lean 4 theorems about List Int (prelude/Prelude.lean: sequences, bytes, folds; prelude/Model.lean: enc/dec as base-256 digits, element kinds, boxing, CRC recursions — one concrete model each); the transcription of the SMT axioms into Lean statements is by hand (same names, same guards); trusted as stated: %s", k, n, rest)
 }
